@@ -218,7 +218,14 @@ def run(ctx, idx):
             t = fn.args.args[-1].arg
             s = K.src(fn).replace(" ", "")
             ok = ("%s.value=%s(%s.value)" % (t, conv, t)) in s and r.returns_token is True
-        ctx.ob("C10.c", "%s::%s::converts" % (rel, r.name), rel, r.node.lineno, ok, "value = %s(text), token returned" % conv if ok else "%s does not convert its text with %s() and return the token" % (r.name, conv))
+        why = "value = %s(text), token returned" % conv if ok else "%s does not convert its text with %s() and return the token" % (r.name, conv)
+        tokname = r.name[2:] if r.name.startswith("t_") else r.name
+        if not ok and r.returns_token is True and L.lexer_converts(tokname) is None:
+            # the token keeps its spelling: the conversion must then happen in the action of the production `x : INT | FLOAT`
+            ok, why = number_action_converts(idx, L, tokname, conv)
+            if ok is None:
+                raise AnalysisError("C10.c: %s" % why)
+        ctx.ob("C10.c", "%s::%s::converts" % (rel, r.name), rel, r.node.lineno, ok, why)
     # ------------------------------------------------------------------ d
     for fname, prods in sorted(byfunc.items()):
         f = prods[0].func
@@ -309,7 +316,7 @@ def run(ctx, idx):
     t = rs.node.args.args[-1].arg
     body = K.src(rs.node)
     con = "%s::t_STRING::quote-removal" % rel
-    strip = [n for n in ast.walk(rs.node) if isinstance(n, ast.Call) and isinstance(n.func, ast.Attribute) and n.func.attr in ("strip", "lstrip", "rstrip", "replace")]
+    strip = [n for n in ast.walk(rs.node) if isinstance(n, ast.Call) and isinstance(n.func, ast.Attribute) and (n.func.attr in ("strip", "lstrip", "rstrip") or (n.func.attr == "replace" and len(n.args) == 2 and isinstance(n.args[0], ast.Constant) and n.args[0].value in ('"', "'") and isinstance(n.args[1], ast.Constant) and n.args[1].value == ""))]
     sl = [n for n in ast.walk(rs.node) if isinstance(n, ast.Subscript) and isinstance(n.slice, ast.Slice) and K.src(n.slice) == "1:-1"]
     pyeval = [n for n in ast.walk(rs.node) if isinstance(n, ast.Call) and (idx.qualname(L.mod, n.func) or K.src(n.func)) in ("ast.literal_eval", "builtins.eval", "eval") and n.args and K.src(n.args[0]) == "%s.value" % t]
     if pyeval:
@@ -344,7 +351,16 @@ def run(ctx, idx):
         else:
             raise AnalysisError("C10.f: decode('unicode_escape') without a recognisable encode")
     else:
-        ctx.note("t_STRING processes no escape sequences")
+        from . import strcodec
+
+        decd = strcodec.reader_decoder(idx, L)
+        if decd["kind"] == "chain":
+            # escapes decoded by successive str.replace calls: each call rescans text the previous one produced
+            wit = strcodec.chain_is_single_pass(decd, lambda tx: RL.accepts(dfas[rs.name], tx))
+            ctx.ob("C10.f", con, rel, decd["node"].lineno, wit is None, "the replacement table decodes every short token body as one left-to-right pass would" if wit is None else
+                   "escapes are decoded by successive replacements over the whole text, so output of one replacement is decoded again by the next: the quoted string \"%s\" yields %r instead of %r (an escaped backslash followed by a letter turns into a control character)" % (wit, strcodec.decode_with(decd, wit), strcodec.single_pass(decd["pairs"], wit)))
+        else:
+            ctx.note("t_STRING processes no escape sequences")
     # decoding errors -> SyntaxError
     con = "%s::t_STRING::decode-errors" % rel
     if dec:
@@ -372,6 +388,44 @@ def run(ctx, idx):
         other = [n for n in cfg.find("raise") if n not in rz]
         ok = not ends_normally and rz and not other
         ctx.ob("C10.g", con, rel, fn.lineno, ok, "raises SyntaxError on every path" if ok else "%s can return normally or raise something else: malformed text is skipped or misreported" % nm)
+
+
+def number_action_converts(idx, L, tok, conv):
+    """(ok|None, why): the grammar action that receives the unconverted token text of `tok` turns it into the right kind of number"""
+    prods = [p for p in L.productions if p.rhs == [tok] or list(p.rhs) == [tok]]
+    if not prods:
+        return False, "%s keeps its spelling and no production `x : %s` converts it: numbers are delivered as text" % (tok, tok)
+    f = prods[0].func
+    parg = f.args.args[-1].arg
+
+    def is_p1(e):
+        return isinstance(e, ast.Subscript) and isinstance(e.value, ast.Name) and e.value.id == parg and isinstance(e.slice, ast.Constant) and e.slice.value == 1
+
+    calls = [n for n in ast.walk(f) if isinstance(n, ast.Call) and isinstance(n.func, ast.Name) and n.func.id in ("int", "float") and len(n.args) == 1 and is_p1(n.args[0])]
+    if not calls:
+        return False, "%s keeps its spelling and the action %s does not convert it with %s(): the value is delivered as text" % (tok, f.name, conv)
+    # `try: int(text) except ValueError: float(text)`
+    for tr in [n for n in ast.walk(f) if isinstance(n, ast.Try)]:
+        ints = [c for c in calls if c.func.id == "int" and any(c is x for b in tr.body for x in ast.walk(b))]
+        flts = [c for c in calls if c.func.id == "float" and any(c is x for h in tr.handlers for x in ast.walk(h))]
+        if ints and flts:
+            hs = " ".join(K.src(h.type) if h.type is not None else "" for h in tr.handlers)
+            if tok == "INT":
+                return False, ("the action %s reads the number as `int(text)` and falls back on `float(text)` when int() raises %s: int() also raises ValueError for an INT literal of more than %d digits (Python's digit limit), so such an integer is silently delivered as a float (inf) instead of being an integer or a syntax error" % (f.name, hs or "anything", RL.INT_MAX_STR_DIGITS))
+            return True, "FLOAT text fails int() and is converted by the float() fallback in %s" % f.name
+    # dispatch on the token type
+    kinds = {c.func.id for c in calls}
+    if kinds == {conv}:
+        return True, "converted with %s() in %s" % (conv, f.name)
+    if conv in kinds:
+        for iff in [n for n in ast.walk(f) if isinstance(n, ast.If)]:
+            ts = K.src(iff.test)
+            if ".type" in ts and ("'%s'" % tok in ts or '"%s"' % tok in ts):
+                body_calls = {c.func.id for c in calls if any(c is x for b in iff.body for x in ast.walk(b))}
+                if body_calls == {conv}:
+                    return True, "converted with %s() in %s under a test of the token type" % (conv, f.name)
+        return None, "the action %s applies %s to the text of %s in a form the analyser cannot decide" % (f.name, "/".join(sorted(kinds)), tok)
+    return False, "the action %s converts the text of %s with %s(), not %s()" % (f.name, tok, "/".join(sorted(kinds)), conv)
 
 
 def actions_keep_values(ctx, idx, L, rule):
